@@ -272,6 +272,10 @@ func (t *vTree) osMkdirAll(p string) int {
 // os.RemoveAll: never follows a symbolic link; a missing path is the
 // documented difference (the client reports it, os does not)
 func (t *vTree) osRemoveAll(p string) int {
+	// (os.RemoveAll splits off the last element without its trailing slashes and unlinks that)
+	for len(p) > 1 && p[len(p)-1] == '/' {
+		p = p[:len(p)-1]
+	}
 	k, e := t.stat(p, false)
 	if e != vEOK {
 		return e
@@ -327,6 +331,11 @@ func vTreePeer(typ byte, body []byte) (fxp, []byte) {
 	vAssert(vTReqs < 200, "bounded number of requests")
 	p, rest := vBodyStr(body[4:])
 	_ = rest
+	if typ != sshFxpReaddir && typ != sshFxpClose && len(p) > 0 && p[0] != '/' {
+		// toLocalPath: a relative path is joined to the working directory ("/"
+		// here) with path.Join, which also cleans it; an absolute one is used as it is
+		p = path.Join("/", p)
+	}
 	t := vTSrv
 	switch typ {
 	case sshFxpStat, sshFxpLstat:
@@ -416,7 +425,22 @@ func vSymTree() *vTree {
 	return t
 }
 
-var vTArgs = []string{"/a", "/a/b", "/a/b/c", "/a/d", "/e", "/l", "/l/b", "/l/x", "/a/b/", "a/b", "/a/x/y", "/e/x", "/q"}
+var vTArgs = []string{"/a", "/a/b", "/a/b/c", "/a/d", "/e", "/l", "/l/b", "/l/x", "/a/b/", "a/b", "/a/x/y", "/e/x", "/q", "a/d/"}
+
+// vSfx marks the assertions about a relative argument with a trailing slash:
+// the server joins it to its working directory with path.Join, which drops the
+// slash, so "file/" names the file where the kernel answers ENOTDIR (known
+// finding F15; the separate label keeps it from masking anything else)
+func vSfx(p string) string {
+	if len(p) > 1 && p[len(p)-1] == '/' {
+		if p[0] != '/' {
+			return " [relative path with a trailing slash]"
+		}
+		// os.RemoveAll strips the slash itself before it unlinks (known finding F16)
+		return " [absolute path with a trailing slash]"
+	}
+	return ""
+}
 
 func vTCategory(err error) int {
 	switch {
@@ -468,8 +492,8 @@ func vh_C05_tree_mkdirall() {
 	vTArg = p
 	err := c.MkdirAll(p)
 	want := ref.osMkdirAll(p)
-	vAssert(vCat(want) == vTCategory(err), "MkdirAll: same outcome category as os.MkdirAll on an identical tree")
-	vAssert(vTSrv.equal(ref), "MkdirAll: leaves the tree as os.MkdirAll does")
+	vAssert(vCat(want) == vTCategory(err), "MkdirAll: same outcome category as os.MkdirAll on an identical tree"+vSfx(p))
+	vAssert(vTSrv.equal(ref), "MkdirAll: leaves the tree as os.MkdirAll does"+vSfx(p))
 	vEmit("want", want)
 }
 
@@ -481,8 +505,8 @@ func vh_C05_tree_removeall() {
 	vTArg = p
 	err := c.RemoveAll(p)
 	want := ref.osRemoveAll(p)
-	vAssert(vCat(want) == vTCategory(err), "RemoveAll: same outcome category as os.RemoveAll on an identical tree (a missing path is reported: documented)")
-	vAssert(vTSrv.equal(ref), "RemoveAll: leaves the tree as os.RemoveAll does")
+	vAssert(vCat(want) == vTCategory(err), "RemoveAll: same outcome category as os.RemoveAll on an identical tree (a missing path is reported: documented)"+vSfx(p))
+	vAssert(vTSrv.equal(ref), "RemoveAll: leaves the tree as os.RemoveAll does"+vSfx(p))
 	vAssert(vTHandlesClosed(), "every directory handle is closed again")
 	vEmit("want", want)
 }
@@ -503,8 +527,8 @@ func vh_C05_tree_remove() {
 		err = c.RemoveDirectory(p)
 		want = ref.remove(p)
 	}
-	vAssert(vCat(want) == vTCategory(err), "Remove/RemoveDirectory: same outcome category as os.Remove")
-	vAssert(vTSrv.equal(ref), "Remove/RemoveDirectory: leaves the tree as os.Remove does")
+	vAssert(vCat(want) == vTCategory(err), "Remove/RemoveDirectory: same outcome category as os.Remove"+vSfx(p))
+	vAssert(vTSrv.equal(ref), "Remove/RemoveDirectory: leaves the tree as os.Remove does"+vSfx(p))
 }
 
 //verif:samples 40
@@ -515,7 +539,7 @@ func vh_C05_tree_readdir() {
 	vTArg = p
 	got, err := c.ReadDir(p)
 	want, e := ref.readdir(p)
-	vAssert(vCat(e) == vTCategory(err), "ReadDir: same outcome category as os.ReadDir")
+	vAssert(vCat(e) == vTCategory(err), "ReadDir: same outcome category as os.ReadDir"+vSfx(p))
 	if e == vEOK && err == nil {
 		vAssert(len(got) == len(want), "ReadDir: as many entries as the directory has")
 		if len(got) == len(want) {
